@@ -334,7 +334,7 @@ func c19(c *Ctx) {
 		guarded := false
 		for _, ci := range core.CallsIn(nm.useFn) {
 			call, ok := ci.(*ssa.Call)
-			if !ok || call.Call.StaticCallee() == nil || call.Call.StaticCallee().Name() != "isDupe" || len(call.Call.Args) != 2 || call.Call.Args[1] != nv {
+			if !ok || !isDupePredicate(call.Call.StaticCallee()) || call.Call.Args[1] != nv {
 				continue
 			}
 			if sl, ok := call.Call.Args[0].Type().Underlying().(*types.Slice); !ok || !strings.Contains(types.TypeString(sl.Elem(), nil), "DirEntry") {
@@ -730,7 +730,7 @@ func (c *Ctx) checkDupePredicate() {
 	n := 0
 	for _, fn := range c.G.Funcs() {
 		rel, ok := c.P.PkgOf(fn)
-		if !ok || rel != "testutil" || fn.Name() != "isDupe" {
+		if !ok || rel != "testutil" || !isDupePredicate(fn) {
 			continue
 		}
 		n++
@@ -780,4 +780,16 @@ func (c *Ctx) checkDupePredicate() {
 		r.Check(len(bad) == 0, "G2", key, c.P.Pos(fn.Pos()), "sibling names are compared by the last \"/\"-segment of Path, the segment packDirectory stores as link name", strings.Join(bad, "; "))
 	}
 	r.Floor("G2/predicate", n, 1)
+}
+
+// isDupePredicate: the sibling-uniqueness predicate by role — func(children []DirEntry, name string) bool in testutil.
+func isDupePredicate(f *ssa.Function) bool {
+	if f == nil || f.Signature.Recv() != nil || f.Signature.Params().Len() != 2 || f.Signature.Results().Len() != 1 {
+		return false
+	}
+	sl, ok := f.Signature.Params().At(0).Type().Underlying().(*types.Slice)
+	if !ok || !strings.Contains(types.TypeString(sl.Elem(), nil), "DirEntry") {
+		return false
+	}
+	return isBasic(f.Signature.Params().At(1).Type(), types.String) && isBasic(f.Signature.Results().At(0).Type(), types.Bool)
 }
